@@ -205,12 +205,19 @@ def nonNullWrap (isNN : Bool) (nodes : List Nat) (path : Path) (r : Option (J ×
       some (v, es ++ [.resolver (nonNullMessage path) (nodes.map some) (some path) none])
     else some (v, es)
 
+def Out.isRaised : Out → Bool
+  | .raised _ _ => true
+  | _ => false
+
 mutual
-/-- `complete_value` below the non-null wrapper. `none` = `RuntimeError` / not a value of the type
-    (programming error, propagates by design). -/
-def completeInner (t : Ty) (nodes : List Nat) (path : Path) : Out → Option (J × List Err)
+/-- `complete_value` below the non-null wrapper; with `atField = true` preceded by the resolver call
+    of `resolve_field`: a raised `ResolverError` is recorded (`fail`) with the field's first node and
+    path and the field is `None` — no completion, hence no second error.
+    `none` = `RuntimeError` / not a value of the type (programming error, propagates by design). -/
+def completeInner (atField : Bool) (t : Ty) (nodes : List Nat) (path : Path) : Out → Option (J × List Err)
   | .null => some (.null, [])
-  | .raised _ _ => none
+  | .raised msg ext =>
+    if atField then some (J.null, [Err.resolver msg [nodes.head?] (some path) ext]) else none
   | .leaf v => match t with
     | .named _ => some (v, [])
     | _ => none
@@ -224,22 +231,18 @@ def completeInner (t : Ty) (nodes : List Nat) (path : Path) : Out → Option (J 
 def completeList (it : Ty) (nodes : List Nat) (path : Path) (i : Nat) : OutList → Option (List J × List Err)
   | .nil => some ([], [])
   | .cons o rest =>
-    match nonNullWrap it.isNonNull nodes (path ++ [.idx i]) (completeInner (innerTy it) nodes (path ++ [.idx i]) o) with
+    match nonNullWrap it.isNonNull nodes (path ++ [.idx i]) (completeInner false (innerTy it) nodes (path ++ [.idx i]) o) with
     | none => none
     | some (v, e1) =>
       match completeList it nodes path (i + 1) rest with
       | none => none
       | some (vs, e2) => some (v :: vs, e1 ++ e2)
-/-- `execute_fields` + `resolve_field`: a raised `ResolverError` is recorded with the field's
-    first node and path and the field is `None` (no completion, hence no second error). -/
+/-- `execute_fields` + `resolve_field`, fields in execution order, path `path + [key]` -/
 def executeFields (path : Path) : FldList → Option (List (String × J) × List Err)
   | .nil => some ([], [])
   | .cons key ty nodes o rest =>
-    let p := path ++ [.key key]
-    let r := match o with
-      | .raised msg ext => some (J.null, [Err.resolver msg [nodes.head?] (some p) ext])
-      | o' => nonNullWrap ty.isNonNull nodes p (completeInner (innerTy ty) nodes p o')
-    match r with
+    match nonNullWrap (ty.isNonNull && !o.isRaised) nodes (path ++ [.key key])
+        (completeInner true (innerTy ty) nodes (path ++ [.key key]) o) with
     | none => none
     | some (v, e1) =>
       match executeFields path rest with
@@ -249,7 +252,7 @@ end
 
 /-- `complete_value(field_type, nodes, path, info, resolved_value)` -/
 def completeValue (ty : Ty) (nodes : List Nat) (path : Path) (o : Out) : Option (J × List Err) :=
-  nonNullWrap ty.isNonNull nodes path (completeInner (innerTy ty) nodes path o)
+  nonNullWrap ty.isNonNull nodes path (completeInner false (innerTy ty) nodes path o)
 
 /-- `execute(...)`'s `GraphQLResult(data=…, errors=executor.errors)` for the root selection -/
 def execute (root : FldList) : Option (J × List Err) :=
